@@ -805,8 +805,9 @@ int mpq_EGlpNumReadStrXc (mpq_t var,
 			e_at = n_char;
 			break;
 		case '/':
-			/* "2e/3": the exponent of the numerator is missing */
-			if (e_open)
+			/* "2e/3": the exponent of the numerator is missing; "/3": the
+			 * numerator itself */
+			if (e_open || !any_dig)
 				bad_exp = 1;
 			e_open = 0;
 			if (exp_sgn)
